@@ -1,0 +1,14 @@
+//go:build !verif
+
+package daemon
+
+import "src.elv.sh/pkg/rpc"
+
+// Stubs of the verification trace hooks (see trace_verif.go).
+
+func verifInvoke(c *client, method string, req, res any)         {}
+func verifDialBegin() bool                                       { return false }
+func verifDialEnd(tok bool, req, res any, rpcClient *rpc.Client) {}
+func verifReturn(req, res any, err error)                        {}
+func verifGiveUp(req, res any)                                   {}
+func verifAccepted(conn any)                                     {}
